@@ -484,6 +484,8 @@ func checkC18(c *Ctx) {
 		"blank-and-plain":          {"a.go": []byte("package p\n\nimport (\n\t_ \"lib\"\n\t\"lib2\"\n)\n\nvar X = lib2.Baz\n\nvar lib2 = 0\n")},
 		// import paths written as raw strings and with escapes (the importer must be asked for the path, not the literal)
 		"raw-and-escaped-paths": {"a.go": []byte("package p\n\nimport `fmt`\n\nimport l \"l\\x69b\"\n\nvar X = fmt.Sprint(l.Foo, missing)\n"), "b.go": []byte("package p\n\nimport . `lib2`\n\nvar Y = Baz + X\n")},
+		// an import the importer cannot deliver in front of imports it can: the later ones are still imported
+		"unknown-then-known": {"a.go": []byte("package p\n\nimport (\n\t\"nowhere/pkg\"\n\t\"fmt\"\n\tl \"lib\"\n)\n\nvar X = fmt.Sprint(l.Foo, pkg.Y)\n"), "b.go": []byte("package p\n\nimport (\n\t\"lib2\"\n\t\"elsewhere\"\n)\n\nvar Y = lib2.Baz + elsewhere.Z\n")},
 		"cycle":                    {"a.go": []byte("package p\n\ntype A struct{ b *B }\n\nvar X = Y\n"), "b.go": []byte("package p\n\ntype B struct{ a *A }\n\nvar Y = X\n\nconst (\n\tC0 = iota\n\tC1\n)\n")},
 	}
 	var keys []string
